@@ -14,6 +14,8 @@ import (
 	"fmt"
 	"net"
 	"net/netip"
+	"os"
+	"os/exec"
 	"strings"
 	"sync"
 	"testing"
@@ -277,7 +279,8 @@ func c20RunSack(t *testing.T, c c20SackCase, method string) c20SackObs {
 	return o
 }
 
-func c20RealSack(t *testing.T, rep *hx.Report, orc *hx.Oracle, rng *hx.RNG) {
+// c20SackCases: the target capabilities and injected failures of the real-SACK stream.
+func c20SackCases() []c20SackCase {
 	base := c20SackCase{Listen: true, SynAck: "sackperm", Reply: "sack", FilterErrAt: -1}
 	mk := func(name, failure string, f func(c *c20SackCase)) c20SackCase {
 		c := base
@@ -309,6 +312,11 @@ func c20RealSack(t *testing.T, rep *hx.Report, orc *hx.Oracle, rng *hx.RNG) {
 		mk("source-sink-fault", "source-sink", func(c *c20SackCase) { c.NewErr = true }),
 		mk("silent-path", "", func(c *c20SackCase) { c.Reply = "none" }),
 	}
+	return cases
+}
+
+func c20RealSack(t *testing.T, rep *hx.Report, orc *hx.Oracle, rng *hx.RNG) {
+	cases := c20SackCases()
 	var lines []string
 	for _, c := range cases {
 		if c.Failure != "" {
@@ -400,4 +408,74 @@ func c20RealSack(t *testing.T, rep *hx.Report, orc *hx.Oracle, rng *hx.RNG) {
 		}
 	}
 	_ = rng
+}
+
+// ---- fresh-process stream --------------------------------------------------------------------------
+// "SACK is unavailable FOR THE TARGET" is a fact about one run. Each child process makes a failing
+// SACK run the very FIRST SACK run of the process (every failure of the list above in turn: closed
+// port, no SACK-permitted, injected filter / send / read / handle-construction faults …) and then
+// traces a SACK-capable target: whatever the first run left behind (a remembered verdict, a one-time
+// initialisation, a cached capability), the capable target must still get its SACK trace.
+
+func c20FreshChild(t *testing.T, first string) {
+	var f c20SackCase
+	for _, c := range c20SackCases() {
+		if c.Name == first {
+			f = c
+		}
+	}
+	if f.Name == "" {
+		t.Fatalf("unknown C20 child case %q", first)
+	}
+	capable := c20SackCases()[0]
+	show := func(tag string, c c20SackCase, method string) {
+		o := c20RunSack(t, c, method)
+		fmt.Printf("C20-CHILD tag=%s method=%s ok=%v syn=%s sack=%s unsupported=%v accepted=%d dest=%v err=%q\n", tag, method, o.OK,
+			strings.ReplaceAll(fmt.Sprint(o.SynProbes), " ", ","), strings.ReplaceAll(fmt.Sprint(o.SackProbes), " ", ","), o.Unsupported, o.Accepted, o.DestFound, fmt.Sprint(o.Err))
+	}
+	show("first", f, hx.Pick(hx.NewRNG(uint64(len(first))), []string{"sack", "prefer_sack"}))
+	show("after", capable, "sack")
+	show("after", capable, "prefer_sack")
+}
+
+func c20FreshProcess(t *testing.T, rep *hx.Report) {
+	exe, err := os.Executable()
+	if err != nil {
+		t.Fatal(err)
+	}
+	for _, c := range c20SackCases() {
+		if c.Failure == "" {
+			continue
+		}
+		cmd := exec.Command(exe, "-test.run", "^TestC20$", "-test.count=1", "-test.timeout=120s")
+		cmd.Env = append(os.Environ(), "C20_CHILD="+c.Name)
+		out, _ := cmd.CombinedOutput()
+		n := 0
+		for _, ln := range strings.Split(string(out), "\n") {
+			if !strings.HasPrefix(ln, "C20-CHILD tag=after ") {
+				continue
+			}
+			n++
+			kv := map[string]string{}
+			for _, f := range strings.Fields(ln)[1:] {
+				if i := strings.Index(f, "="); i > 0 {
+					kv[f[:i]] = f[i+1:]
+				}
+			}
+			sample := map[string]any{"first_sack_run_of_the_process": c.Name, "then": "sack-capable target, method " + kv["method"], "observed": ln}
+			rep.Case("fresh-process", c.Name+"/"+kv["method"], true, sample)
+			rep.Hit("fresh-process:" + c.Name)
+			sk := kv["sack"]
+			okTrace := kv["ok"] == "true" && kv["syn"] == "[]" && (sk == "[1,2,3]" || sk == "[1]" || sk == "[1,2]") && kv["accepted"] == "1" && kv["dest"] == "true"
+			if !okTrace {
+				rep.Violate(hx.Violation{Kind: "spec",
+					What: fmt.Sprintf("after a first SACK run of the process that failed (%s), a SACK-capable target no longer gets a SACK trace with method %s: %s", c.Name, kv["method"], ln),
+					Sig:  map[string]string{"stream": "fresh-process", "method": kv["method"], "case": c.Name}, Replay: sample})
+			}
+		}
+		if n != 2 {
+			rep.Violate(hx.Violation{Kind: "tie", NoInput: true, What: "fresh-process child for " + c.Name + " did not report both runs: " + string(out),
+				Sig: map[string]string{"stream": "fresh-process", "case": c.Name}, Replay: map[string]any{"first_sack_run_of_the_process": c.Name, "output": string(out)}})
+		}
+	}
 }
